@@ -1132,6 +1132,7 @@ package spec
 
 //@ func expandSchemaRef
 //@   strings  uninterpreted
+//@   ret 2 ensures [C08] unresolved-ref-left-verbatim @@ *result0 == target
 //@   call expandSchema 0 requires [C08] descends-only-after-a-successful-resolve @@ failures == old(failures)
 //@   call expandSchema 0 requires [C02] target-in-its-document-scope @@ hopScopeRaw(arg_resolver, arg_basePath, resolver, basePath, refStringV(target.Ref), refLocalV(target.Ref))
 //@   keeps    [C02] piLeft, piLeftLocal, piRes, piHome, prLeft, prLeftLocal, prRes, prHome
